@@ -558,6 +558,61 @@ func (r *runner) nonnumeric(cs *Case) {
 	}
 }
 
+// spellings: "no formula or binding crashes": a word in front of a group that is spelled like a function but is not one of the
+// documented lower-case names (ABS(x), Sqrt(x), nosuch(x)). Whether it is taken for a variable times a group, for the
+// function, or rejected is not judged - compilation and evaluation must return.
+func (r *runner) spellings() {
+	c := r.c
+	if c.Shard != 0 {
+		return
+	}
+	words := []string{"ABS", "Abs", "Sqrt", "SQRT", "Floor", "LOG10", "Log2", "nosuch", "abs2", "sinh", "X", "é"}
+	shapes := []string{"%s(x)", "%s(-3)", "1+%s([0])*2", "-%s(x)", "%s(x)(2)", "abs(%s(x))", "%s(abs(x))", "2^%s(4)", "%s (x)", "%s(x)-1"}
+	one := []Bind{{Keys: map[string]string{"x": "3"}, Idx: map[string]string{"0": "2"}}, {Keys: map[string]string{"x": "-1.5"}, Idx: map[string]string{"0": "0"}}}
+	for _, w := range words {
+		for _, sh := range shapes {
+			f := fmt.Sprintf(sh, w)
+			cs := &Case{Kind: "spelling", F: f, Binds: one}
+			c.Begin(cs, 60*time.Second)
+			r.spelling(cs)
+			c.End()
+		}
+	}
+}
+
+func (r *runner) spelling(cs *Case) {
+	c := r.c
+	var e stdmath.Expr
+	var err error
+	if p, val, stack := run.Guard(func() { e, err = stdmath.Compile(cs.F) }); p {
+		r.panicViolation("stdmath.Compile", val, stack, cs, "")
+		return
+	}
+	tmpl := "{! " + cs.F + "}"
+	var ckb *expressions.CompiledKeyBuilder
+	if p, val, stack := run.Guard(func() { ckb, _ = r.kb.Compile(tmpl) }); p {
+		r.panicViolation("KeyBuilder.Compile("+tmpl+")", val, stack, cs, "")
+		return
+	}
+	bs := newBindSet(cs.Binds)
+	for i := range bs.kctx {
+		if err == nil && e != nil {
+			m := &mctx{extraIdx: -1, e: bs.envs[i]}
+			if p, val, stack := run.Guard(func() { _ = e.Eval(m) }); p {
+				r.panicViolation("Eval with "+bindStr(bs.binds[i]), val, stack, cs, "")
+				return
+			}
+		}
+		if ckb != nil {
+			if p, val, stack := run.Guard(func() { _ = ckb.BuildKey(bs.kctx[i]) }); p {
+				r.panicViolation("BuildKey("+tmpl+") with "+bindStr(bs.binds[i]), val, stack, cs, "")
+				return
+			}
+		}
+	}
+	c.Count("function_like_spellings_survived", 1)
+}
+
 // ---------------------------------------------------------------- workloads
 
 func Run(c *run.Ctx) {
@@ -578,6 +633,8 @@ func Run(c *run.Ctx) {
 			r.malformed(&cs)
 		case "nonnumeric":
 			r.nonnumeric(&cs)
+		case "spelling":
+			r.spelling(&cs)
 		default:
 			cs.Pinned = "replay"
 			r.formula(&cs, newBindSet(cs.Binds), opts{kb: true, subst: true})
@@ -591,6 +648,7 @@ func Run(c *run.Ctx) {
 	r.dense()
 	r.random()
 	r.malformedRandom()
+	r.spellings()
 	r.misc()
 }
 
